@@ -63,6 +63,8 @@ func c13Members() []c13Member {
 	arrInts := []model.Event{model.ArrStart(3, structform.Int8Type), model.SInt(model.KInt8, 1), model.SInt(model.KInt8, -2), model.SInt(model.KInt8, 3), model.ArrEnd()}
 	obj := []model.Event{model.ObjStart(-1, 0), model.KeyRef("k"), model.StrRef("v"), model.Key("n"), model.ObjStart(1, 0), model.KeyRef("d"), model.ArrStart(1, 0), model.UInt(model.KUint16, 300), model.ArrEnd(), model.ObjEnd(), model.ObjEnd()}
 	objStr := []model.Event{model.ObjStart(2, structform.StringType), model.Key("p"), model.Str("1"), model.KeyRef("q"), model.StrRef(""), model.ObjEnd()}
+	objObj := []model.Event{model.ObjStart(2, 0), model.KeyRef("x"), model.ObjStart(-1, 0), model.KeyRef("k"), model.StrRef("1"), model.ObjEnd(), model.Key("y"), model.ObjStart(1, 0), model.Key("k"), model.Str("2"), model.ObjEnd(), model.ObjEnd()}
+	arrObj := []model.Event{model.ArrStart(-1, 0), model.ObjStart(-1, 0), model.KeyRef("k"), model.StrRef("1"), model.ObjEnd(), model.ObjStart(0, 0), model.ObjEnd(), model.ArrEnd()}
 	return []c13Member{
 		{"i", []model.Event{model.SInt(model.KInt8, 5)}, []reflect.Type{tInt, tI64, tU8, tF64, tIfc, reflect.PtrTo(tInt)}},
 		{"s", []model.Event{model.StrRef("str")}, []reflect.Type{tStr, tIfc, reflect.PtrTo(tStr)}},
@@ -70,9 +72,11 @@ func c13Members() []c13Member {
 		{"n", []model.Event{model.Nil()}, []reflect.Type{reflect.PtrTo(tInt), tIfc}},
 		{"f", []model.Event{model.F64(0x3ff8000000000000)}, []reflect.Type{tF64, tF32, tIfc}},
 		{"a", arrMixed, []reflect.Type{reflect.SliceOf(tIfc), tIfc}},
-		{"ai", arrInts, []reflect.Type{reflect.SliceOf(tInt), reflect.SliceOf(reflect.TypeOf(int8(0))), reflect.SliceOf(tIfc), tIfc, reflect.SliceOf(tF64)}},
-		{"o", obj, []reflect.Type{reflect.MapOf(tStr, tIfc), tIfc, nested, reflect.PtrTo(nested)}},
+		{"ai", arrInts, []reflect.Type{reflect.SliceOf(tInt), reflect.SliceOf(reflect.TypeOf(int8(0))), reflect.SliceOf(tIfc), tIfc, reflect.SliceOf(tF64), reflect.PtrTo(reflect.SliceOf(tInt)), reflect.PtrTo(reflect.PtrTo(reflect.SliceOf(tInt)))}},
+		{"o", obj, []reflect.Type{reflect.MapOf(tStr, tIfc), tIfc, nested, reflect.PtrTo(nested), reflect.PtrTo(reflect.PtrTo(nested)), reflect.PtrTo(reflect.MapOf(tStr, tIfc))}},
 		{"os", objStr, []reflect.Type{reflect.MapOf(tStr, tStr), tIfc, reflect.MapOf(tStr, tIfc)}},
+		{"om", objObj, []reflect.Type{reflect.MapOf(tStr, nested), reflect.MapOf(tStr, reflect.PtrTo(nested)), reflect.MapOf(tStr, reflect.MapOf(tStr, tStr)), tIfc, reflect.MapOf(tStr, reflect.PtrTo(reflect.MapOf(tStr, tIfc)))}},
+		{"ao", arrObj, []reflect.Type{reflect.SliceOf(nested), reflect.SliceOf(reflect.PtrTo(nested)), reflect.SliceOf(tIfc), reflect.SliceOf(reflect.MapOf(tStr, tStr))}},
 		{"e", []model.Event{model.Ext(model.KUint16Array, []uint16{1, 65535})}, []reflect.Type{reflect.SliceOf(reflect.TypeOf(uint16(0))), reflect.SliceOf(tInt), tIfc}},
 	}
 }
